@@ -1,5 +1,5 @@
 """C02 — every note-on is released exactly once and on time; no stuck notes."""
-from .. import sched_gen, sched_suite
+from .. import sched_impl, sched_gen, sched_suite
 
 PROPERTY = "C02"
 LEAN_MODULE = "IsobarV.Props.C02"
@@ -52,7 +52,91 @@ def signature_of(lines, impl, model, diff):
     return None
 
 
+# ---- "rests, zero amplitude, zero gate and inactive events produce no messages at all" -----------------------------
+# On the real Track, with a device that records EVERY method called on it (the scheduler suite's device knows notes,
+# controls and program changes only) and with the event keys the line protocol has no room for (pitchbend, octave,
+# transpose, key, per-voice tuples).  Audible voices of the same events must be paired as usual.
+
+def silent_event_cases(ctx):
+    import isobar as iso
+    from isobar.io.output import OutputDevice
+    r = ctx.rng
+
+    class AllCalls(OutputDevice):
+        def __init__(self):
+            super().__init__()
+            self.calls = []
+
+        def tick(self):
+            pass
+
+    # every message-sending method of the MIDI-style device interface (no `event` / `create` / `trigger` / `send`: a device
+    # that has those is driven through a different branch of perform_event)
+    for name in ("note_on", "note_off", "control", "program_change", "pitch_bend", "aftertouch", "polytouch", "all_notes_off"):
+        setattr(AllCalls, name, (lambda nm: lambda self, *a, **kw: self.calls.append((nm,) + tuple(a) + tuple(sorted(kw.items()))))(name))
+
+    for i in range(ctx.scale(300, 20000)):
+        tpb = r.choice([4, 24, 96, 480])
+        dev = AllCalls()
+        tl = iso.Timeline(tempo=120, output_device=dev, clock_source=sched_impl.DummyClock(ticks_per_beat=tpb))
+        reason = r.choice(["rest-note", "rest-degree", "zero-amp", "zero-amp-chord", "zero-gate", "inactive", "negative-gate"])
+        nv = r.randint(1, 3)
+        ev = {"duration": r.choice([0.25, 0.5, 1])}
+        if reason == "rest-degree":
+            ev["degree"] = None
+        elif reason == "rest-note":
+            ev["note"] = None
+        else:
+            notes = tuple(r.randint(30, 90) for _ in range(nv))
+            ev["note"] = notes if nv > 1 or r.random() < 0.3 else notes[0]
+        if reason == "zero-amp":
+            ev[r.choice(["amplitude", "amp", "velocity"])] = 0
+        elif reason == "zero-amp-chord":
+            ev["note"] = tuple(r.randint(30, 90) for _ in range(max(nv, 2)))
+            ev["amplitude"] = tuple(0 for _ in ev["note"])
+        else:
+            if r.random() < 0.5:
+                ev["amplitude"] = r.randint(1, 127)
+        if reason == "zero-gate":
+            ev["gate"] = 0
+        elif reason == "negative-gate":
+            ev["gate"] = -r.choice([0.5, 1])
+        elif r.random() < 0.5:
+            ev["gate"] = r.choice([0.5, 1, 1.5])
+        if reason == "inactive":
+            ev["active"] = False
+        # keys that must not make a silent event audible
+        if r.random() < 0.6:
+            ev["pitchbend"] = r.choice([0, 100, -8192, 8191])
+        if r.random() < 0.4:
+            ev["channel"] = r.randint(0, 15)
+        if r.random() < 0.3 and "degree" in ev:
+            ev["octave"] = r.randint(-1, 3)
+        if r.random() < 0.3:
+            ev["transpose"] = r.randint(-12, 12)
+        count = r.randint(1, 4)
+        tl.schedule(dict(ev), count=count)
+        err = None
+        try:
+            for _ in range(int(count * ev["duration"] * tpb) + 2 * tpb):
+                tl.tick()
+        except StopIteration:
+            pass
+        except Exception as ex:
+            err = type(ex).__name__
+        shown = {k: (repr(v) if not isinstance(v, (int, float, str, bool, type(None))) else v) for k, v in ev.items()}
+        ctx.case(("silent", reason, repr(sorted(shown.items())), tpb, count), nontrivial=True, validated=False,
+                 sample={"part": "silent events", "reason": reason, "event": shown, "calls": len(dev.calls)})
+        ctx.count("silent:" + reason)
+        if dev.calls or err:
+            ctx.violation("C02:silent-event-sends-messages",
+                          "an event that is silent (%s) reached the device: %s%s; event %r" % (reason, dev.calls[:6], (" raised " + err) if err else "", shown),
+                          {"suite": "c02-silent", "reason": reason, "event": shown, "tpb": tpb, "count": count,
+                           "calls": [list(map(repr, c)) for c in dev.calls[:12]], "first_failing_clause": "silent events produce no messages at all"})
+
+
 def run(ctx):
+    silent_event_cases(ctx)
     n = ctx.scale(2000, 150000)
     sched_suite.run_suite(ctx, PROF, n, "c02", [oracle], sounding_at_change, signature_of)
 
